@@ -555,7 +555,7 @@ def run(prop, tier):
     r = rng(prop)
     with Scratch(prop) as wd:
         mc = tlc.model_check("MCVersion", "Version_quick.cfg" if quick else "Version_thorough.cfg", wd,
-                             timeout=280 if quick else 2400)
+                             timeout=600 if quick else 7200)
         rep.add_tlc(mc, "exhaustive: Version.tla (hash rules, generation counter, version cache, did_change) keeps Coherent / Fresh / Deterministic")
         common.tick("model check done")
         if not quick:
